@@ -5,6 +5,7 @@
                                        taker (Person) carries the super-properties
  * transitive property               : SubOrgOf
  * transitive + inverse              : PartOf <-> HasPart (both transitive)
+ * sub-property of a transitive one  : WhollyOwnedBy < SubOrgOf
  * class hierarchy for domain-less variables: Person > Employee > Manager ; Org > Dept
 Descriptors can be declared only once per process, so this module must be imported once.
 """
@@ -27,6 +28,7 @@ class Org(Symbol):
     sub_org_of: List[Org] = field(default_factory=list)
     part_of: List[Org] = field(default_factory=list)
     has_part: List[Org] = field(default_factory=list)
+    wholly_owned_by: List[Org] = field(default_factory=list)
 
     def __repr__(self):
         return f"{type(self).__name__}({self.name})"
@@ -84,6 +86,25 @@ class Chief(Role[Person], Symbol):
 
 
 @dataclass
+class VOrg(Symbol):
+    """value equality: two VOrg("x") are equal and hash alike but are distinct instances ("twins")"""
+    name: str
+    members: Set[VPerson] = field(default_factory=set, compare=False, repr=False)
+
+    def __hash__(self):
+        return hash(self.name)
+
+
+@dataclass
+class VPerson(Symbol):
+    name: str
+    member_of: List[VOrg] = field(default_factory=list, compare=False, repr=False)
+
+    def __hash__(self):
+        return hash(self.name)
+
+
+@dataclass
 class Member(PropertyDescriptor, HasInverseProperty):
     @classmethod
     def get_inverse(cls) -> Type[MemberOf]:
@@ -113,6 +134,11 @@ class SubOrgOf(PropertyDescriptor, TransitiveProperty):
 
 
 @dataclass
+class WhollyOwnedBy(SubOrgOf):
+    """a sub-property of a transitive property (transitive itself through the inherited mixin)"""
+
+
+@dataclass
 class PartOf(PropertyDescriptor, TransitiveProperty, HasInverseProperty):
     @classmethod
     def get_inverse(cls):
@@ -130,7 +156,10 @@ Person.works_for = WorksFor(Person, "works_for")
 Person.member_of = MemberOf(Person, "member_of")
 Chief.head_of = HeadOf(Chief, "head_of")
 Org.members = Member(Org, "members")
+VPerson.member_of = MemberOf(VPerson, "member_of")
+VOrg.members = Member(VOrg, "members")
 Org.sub_org_of = SubOrgOf(Org, "sub_org_of")
+Org.wholly_owned_by = WhollyOwnedBy(Org, "wholly_owned_by")
 Org.part_of = PartOf(Org, "part_of")
 Org.has_part = HasPart(Org, "has_part")
 
